@@ -23,6 +23,17 @@ CHECKS = {
               "TestNode objects (proof of the aliasing pattern is part of C09)."),
         note=COMMON_NOTE + "The model snapshots variant_nodes[v0] during insert (equal to the live iteration unless a name repeats its own first variant, which the property excludes).",
         design="§5 C16"),
+    "C18": dict(
+        engine="corr-pure",
+        technique="Coq proof (finite sweep lifted for the 33 prefix lengths, lia/nia for membership and translation, induction for allocation, invariant over build/reattach) + model/implementation correspondence by vm_compute",
+        text=("Theorems over Model/NetAddr.v: netmask<->prefix round trips, characterisation of subnet membership, exact allocation "
+              "for every range (each offset once, in order, then exhaustion forever), translation keeps the host offset and fails "
+              "exactly outside IPv4 space. Over Model/NetBuild.v (construction + reattachment as a state machine with a heap of "
+              "netconfig objects): PARTIAL - for all parameters every recorded interface lies in its netconfig's network after any "
+              "reattach sequence; full consistency (one registered netconfig per interface, distinct addresses) is a monitor on the "
+              "implementation's state for well-formed configurations, and Examples show how it fails outside them."),
+        note=COMMON_NOTE + "ipaddress is trusted; dotted-quad conversion is harness glue; reattach_interface modelled without proxy nic; netmask equality modelled on numbers.",
+        design="§5 C18"),
 }
 
 NOT_YET = "check not built yet (see DESIGN.md §7 build order); no claim is made for this property in this commit"
